@@ -66,7 +66,9 @@ theorem fuel_ok (tr : Traj) (N : Nat) (h : N ≤ tr.buf.length) : N + 2 ≤ seek
 time-query the answer is the one at the chain element on which a seek from the underlying chain
 element lands. -/
 theorem runQuery_spec (sec : Nat → Rat) (tr : Traj) (N : Nat) (hN : N ≤ tr.buf.length)
-    (T : Tiling (trajCur sec tr) N) (p : Player) (hp : Inv sec tr N p) (q : Query) (hq : q.valid) :
+    (T : Tiling0 (trajCur sec tr) N) (hterm : ((trajCur sec tr).chain N).length = 0)
+    (hmin : ∀ k, k < N → ((trajCur sec tr).chain k).length ≠ 0)
+    (p : Player) (hp : Inv sec tr N p) (q : Query) (hq : q.valid) :
     ∃ p' a, runQuery sec p q = .ok (p', a) ∧ Inv sec tr N p' ∧
       (∀ t, (q = .pos t ∨ q = .vel t ∨ q = .acc t) →
         ∃ j k, j ≤ N ∧ clearCache p.cur = (trajCur sec tr).chain j ∧
@@ -74,17 +76,6 @@ theorem runQuery_spec (sec : Nat → Rat) (tr : Traj) (N : Nat) (hN : N ≤ tr.b
           a = answerAt ((trajCur sec tr).chain k) q) := by
   obtain ⟨htr, j, hj, hs, hc⟩ := hp
   have hpe : p = ⟨tr, p.cur⟩ := by cases p; simp_all
-  have hterm : ((trajCur sec tr).chain N).length = 0 := by
-    rcases (chain_built sec tr N).shape with ⟨h0, _⟩ | ⟨_, hsome, _⟩
-    · exact h0
-    · have := T.last; change ((trajCur sec tr).chain N).endSec = none at this; rw [hsome] at this; cases this
-  have hmin : ∀ k, k < N → ((trajCur sec tr).chain k).length ≠ 0 := by
-    intro k hk h0
-    obtain ⟨e, he⟩ := T.bounded k hk
-    change ((trajCur sec tr).chain k).endSec = some e at he
-    rcases (chain_built sec tr k).shape with ⟨_, hnone, _⟩ | ⟨h3, _⟩
-    · rw [hnone] at he; cases he
-    · omega
   cases q with
   | dur =>
     obtain ⟨total, ht⟩ := durLoop_chain sec tr N hterm hmin N 0 (seekFuel tr) 0 (by omega) (by unfold seekFuel; omega)
@@ -143,7 +134,8 @@ theorem inv_fresh (sec : Nat → Rat) (tr : Traj) (N : Nat) :
 
 /-- any history of valid queries succeeds and preserves the invariant -/
 theorem runHistory_inv (sec : Nat → Rat) (tr : Traj) (N : Nat) (hN : N ≤ tr.buf.length)
-    (T : Tiling (trajCur sec tr) N) :
+    (T : Tiling0 (trajCur sec tr) N) (hterm : ((trajCur sec tr).chain N).length = 0)
+    (hmin : ∀ k, k < N → ((trajCur sec tr).chain k).length ≠ 0) :
     ∀ (hist : List Query) (p : Player), Inv sec tr N p → (∀ q, q ∈ hist → q.valid) →
       ∃ p', runHistory sec p hist = .ok p' ∧ Inv sec tr N p' := by
   intro hist
@@ -151,7 +143,7 @@ theorem runHistory_inv (sec : Nat → Rat) (tr : Traj) (N : Nat) (hN : N ≤ tr.
   | nil => intro p hp _; exact ⟨p, rfl, hp⟩
   | cons q qs ih =>
     intro p hp hv
-    obtain ⟨p1, a, h1, hinv, _⟩ := runQuery_spec sec tr N hN T p hp q (hv q (by simp))
+    obtain ⟨p1, a, h1, hinv, _⟩ := runQuery_spec sec tr N hN T hterm hmin p hp q (hv q (by simp))
     obtain ⟨p2, h2, hinv2⟩ := ih p1 hinv (fun q' hq' => hv q' (by simp [hq']))
     exact ⟨p2, by simp only [runHistory, h1, bind, Except.bind]; exact h2, hinv2⟩
 
@@ -164,10 +156,21 @@ theorem trajectory_answers_history_free (sec : Nat → Rat) (hsec : MonoSec sec)
     ∃ p0 ph a, rewind sec tr = .ok p0 ∧ runHistory sec p0 hist = .ok ph ∧
       (runQuery sec ph q).map (·.2) = .ok a ∧ (runQuery sec p0 q).map (·.2) = .ok a := by
   obtain ⟨N, hN, T⟩ := traj_tiling sec tr hsec hw
+  have hterm : ((trajCur sec tr).chain N).length = 0 := by
+    rcases (chain_built sec tr N).shape with ⟨h0, _⟩ | ⟨_, hsome, _⟩
+    · exact h0
+    · have := T.last; change ((trajCur sec tr).chain N).endSec = none at this; rw [hsome] at this; cases this
+  have hmin : ∀ k, k < N → ((trajCur sec tr).chain k).length ≠ 0 := by
+    intro k hk h0
+    obtain ⟨e, he⟩ := T.bounded k hk
+    change ((trajCur sec tr).chain k).endSec = some e at he
+    rcases (chain_built sec tr k).shape with ⟨_, hnone, _⟩ | ⟨h3, _⟩
+    · rw [hnone] at he; cases he
+    · omega
   have hp0 := inv_fresh sec tr N
-  obtain ⟨ph, hrun, hinv⟩ := runHistory_inv sec tr N hN T hist _ hp0 hh
-  obtain ⟨p1, a1, hq1, _, hspec1⟩ := runQuery_spec sec tr N hN T ph hinv q hq
-  obtain ⟨p2, a2, hq2, _, hspec2⟩ := runQuery_spec sec tr N hN T _ hp0 q hq
+  obtain ⟨ph, hrun, hinv⟩ := runHistory_inv sec tr N hN T.toTiling0 hterm hmin hist _ hp0 hh
+  obtain ⟨p1, a1, hq1, _, hspec1⟩ := runQuery_spec sec tr N hN T.toTiling0 hterm hmin ph hinv q hq
+  obtain ⟨p2, a2, hq2, _, hspec2⟩ := runQuery_spec sec tr N hN T.toTiling0 hterm hmin _ hp0 q hq
   refine ⟨_, ph, a1, rewind_eq sec tr, hrun, by rw [hq1]; rfl, ?_⟩
   change Except.map _ (runQuery sec ⟨tr, (trajCur sec tr).chain 0⟩ q) = _
   rw [hq2]
@@ -210,10 +213,21 @@ theorem trajectory_boundary_adjoining (sec : Nat → Rat) (hsec : MonoSec sec) (
       (runQuery sec p0 q).map (·.2) = .ok (answerAt ((trajCur sec tr).chain k0) q) ∧
       (a = answerAt ((trajCur sec tr).chain k0) q ∨ a = answerAt ((trajCur sec tr).chain (k0 + 1)) q) := by
   obtain ⟨N, hN, T⟩ := traj_tiling sec tr hsec hw
+  have hterm : ((trajCur sec tr).chain N).length = 0 := by
+    rcases (chain_built sec tr N).shape with ⟨h0, _⟩ | ⟨_, hsome, _⟩
+    · exact h0
+    · have := T.last; change ((trajCur sec tr).chain N).endSec = none at this; rw [hsome] at this; cases this
+  have hmin : ∀ k, k < N → ((trajCur sec tr).chain k).length ≠ 0 := by
+    intro k hk h0
+    obtain ⟨e, he⟩ := T.bounded k hk
+    change ((trajCur sec tr).chain k).endSec = some e at he
+    rcases (chain_built sec tr k).shape with ⟨_, hnone, _⟩ | ⟨h3, _⟩
+    · rw [hnone] at he; cases he
+    · omega
   have hp0 := inv_fresh sec tr N
-  obtain ⟨ph, hrun, hinv⟩ := runHistory_inv sec tr N hN T hist _ hp0 hh
-  obtain ⟨p1, a1, hq1, _, hspec1⟩ := runQuery_spec sec tr N hN T ph hinv q hq
-  obtain ⟨p2, a2, hq2, _, hspec2⟩ := runQuery_spec sec tr N hN T _ hp0 q hq
+  obtain ⟨ph, hrun, hinv⟩ := runHistory_inv sec tr N hN T.toTiling0 hterm hmin hist _ hp0 hh
+  obtain ⟨p1, a1, hq1, _, hspec1⟩ := runQuery_spec sec tr N hN T.toTiling0 hterm hmin ph hinv q hq
+  obtain ⟨p2, a2, hq2, _, hspec2⟩ := runQuery_spec sec tr N hN T.toTiling0 hterm hmin _ hp0 q hq
   have htv : t.valid := by
     rcases hqt with h | h | h <;> (subst h; exact hq)
   obtain ⟨j1, k1, hj1, _, hl1, e1⟩ := hspec1 t hqt
